@@ -192,16 +192,21 @@ def backoff (f : Nat → Pass) : Nat → Pass
     | .retry => backoff f n
     | r => r
 
+/-- `true` when a segment test may start here in the *segment-aligned* variant of the router
+(`k = true`): at the end of the path or in front of a `/`.  The real code is `k = false`. -/
+def startOk (k : Bool) (path : Path) : Bool := !k || path.isEmpty || startsSlash path
+
 mutual
-/-- `PossibleRouteMatch::test` -/
-def Seg.test : Seg → Path → Out PM
-  | .st s, path => staticTest s path
-  | .param n, path => paramTest n path
-  | .opt n, path => optTest n path
-  | .splat n, path => splatTest n path
+/-- `PossibleRouteMatch::test`.  `k = false`: the code as it is.  `k = true`: the segment-aligned
+variant used to *classify* inputs (`SegmentAligned`): an atom is only tested at a segment boundary. -/
+def Seg.test (k : Bool) : Seg → Path → Out PM
+  | .st s, path => if startOk k path then staticTest s path else .none
+  | .param n, path => if startOk k path then paramTest n path else .none
+  | .opt n, path => if startOk k path then optTest n path else .none
+  | .splat n, path => if startOk k path then splatTest n path else .none
   | .tup [], path => .some ⟨[], path, []⟩
   | .tup [a], path =>
-    match a.test path with
+    match a.test k path with
     | .some m =>
       match splitBytes path (bytes m.matched) with
       | some (pre, _) => .some ⟨pre, m.remaining, m.params⟩
@@ -209,7 +214,7 @@ def Seg.test : Seg → Path → Out PM
     | .none => .none
     | .panic => .panic
   | .tup (a :: b :: l), path =>
-    match backoff (fun inc => passFields (a :: b :: l) true inc 0 path 0 []) (countOpt (a :: b :: l)) with
+    match backoff (fun inc => passFields k (a :: b :: l) true inc 0 path 0 []) (countOpt (a :: b :: l)) with
     | .done r ml p =>
       match splitBytes path ml with
       | some (pre, _) => .some ⟨pre, r, p⟩
@@ -217,20 +222,20 @@ def Seg.test : Seg → Path → Out PM
     | .panic => .panic
     | _ => .none
 /-- the body of the tuple loop from field `ty` on (`first = true` for `$first`) -/
-def passFields : List Seg → Bool → Nat → Nat → Path → Nat → Params → Pass
+def passFields (k : Bool) : List Seg → Bool → Nat → Nat → Path → Nat → Params → Pass
   | [], _, _, _, r, ml, p => .done r ml p
   | ty :: tys, first, inc, nth, r, ml, p =>
     let nth' := if ty.optional then nth + 1 else nth
     if !ty.optional || nth' ≤ inc then
-      match ty.test r with
+      match ty.test k r with
       | .panic => .panic
       | .none =>
         if first then .fail
         else if ty.optional then .fail
         else if inc = 0 then .fail
         else .retry
-      | .some m => passFields tys false inc nth' m.remaining (ml + bytes m.matched) (p ++ m.params)
-    else passFields tys false inc nth' r ml p
+      | .some m => passFields k tys false inc nth' m.remaining (ml + bytes m.matched) (p ++ m.params)
+    else passFields k tys false inc nth' r ml p
 end
 
 /-- `PathSegment` without `Unit` -/
@@ -298,37 +303,37 @@ def innerMatched (m : NMatch) : Path :=
 
 mutual
 /-- `NestedRoute::match_nested`; `pos` = index of this route among its siblings -/
-def matchNested : Route → Nat → Path → NOut
+def matchNested (k : Bool) : Route → Nat → Path → NOut
   | .mk segs children, pos, path =>
-    match segs.test path with
+    match segs.test k path with
     | .panic => .panic
     | .none => .none
     | .some pm =>
       if children.isEmpty then finish pos pm.matched pm.params none pm.remaining
       else
-        match matchChildren children 0 pm.remaining with
+        match matchChildren k children 0 pm.remaining with
         | .panic => .panic
         | .some inner rem => finish pos pm.matched pm.params (some inner) rem
         | .none =>
           if segs.optional then
             -- the parent was optional: re-match the children against the full path …
-            match matchChildren children 0 path with
+            match matchChildren k children 0 path with
             | .panic => .panic
             | .none => .none
             | .some inner rem =>
               -- … and re-parse the parent's params on what is left in front
-              match segs.test (trimEnd (innerMatched inner ++ rem) path) with
+              match segs.test k (trimEnd (innerMatched inner ++ rem) path) with
               | .some np => finish pos pm.matched np.params (some inner) rem
               | _ => .panic
           else .none
 /-- sibling containers: the first child whose `match_nested` succeeds wins -/
-def matchChildren : List Route → Nat → Path → NOut
+def matchChildren (k : Bool) : List Route → Nat → Path → NOut
   | [], _, _ => .none
   | c :: cs, i, path =>
-    match matchNested c i path with
+    match matchNested k c i path with
     | .panic => .panic
     | .some m rem => .some m rem
-    | .none => matchChildren cs (i + 1) path
+    | .none => matchChildren k cs (i + 1) path
 end
 
 structure Defs where
@@ -345,18 +350,24 @@ def stripPrefix : Path → Path → Option Path
   | _ :: _, [] => none
   | b :: bs, c :: cs => if b = c then stripPrefix bs cs else none
 
-/-- the base handling at the top of `RouteDefs::match_route` -/
-def stripBase (base : Option Path) (path : Path) : Option Path :=
+/-- the base handling at the top of `RouteDefs::match_route` (`k = true`: the base is one static
+prefix that must end at a segment boundary, no slash trimming) -/
+def stripBase (k : Bool) (base : Option Path) (path : Path) : Option Path :=
   match base with
   | none => some path
-  | some b => if startsSlash b then stripPrefix (dropSlashes b) (dropSlashes path) else stripPrefix b path
+  | some b =>
+    if k then
+      match stripPrefix b path with
+      | some r => if r.isEmpty || startsSlash r then some r else none
+      | none => none
+    else if startsSlash b then stripPrefix (dropSlashes b) (dropSlashes path) else stripPrefix b path
 
-/-- `RouteDefs::match_route` -/
-def matchRoute (d : Defs) (path : Path) : Out NMatch :=
-  match stripBase d.base path with
+/-- `RouteDefs::match_route` (`k = false`) -/
+def matchRoute (k : Bool) (d : Defs) (path : Path) : Out NMatch :=
+  match stripBase k d.base path with
   | none => .none
   | some p =>
-    match matchChildren d.tops 0 p with
+    match matchChildren k d.tops 0 p with
     | .panic => .panic
     | .none => .none
     | .some m rem => if complete rem then .some m else .none
@@ -555,24 +566,138 @@ def firstStrict : List (List (List FSeg)) → Path → Nat → Option Nat
   | [], _, _ => none
   | d :: ds, path, i => if anyStrict d path then some i else firstStrict ds path (i + 1)
 
-/-- the property's oracle on one (route table, path, router outcome): `none` = holds -/
-def judge (d : Defs) (path : Path) (got : Out NMatch) : Option String :=
+/-- how the oracle fails -/
+inductive Kind where
+  | panic          -- the router panics
+  | flatOnly       -- a registered route accepts the path (strictly), the router does not
+  | routerOnly     -- the router matches, no registered route of the winning definition accepts the path
+  | winner         -- an earlier definition's registered route accepts the path (strictly)
+  | params         -- the params differ from every assignment the winning definition's table entries give
+  | winnerUnknown
+  deriving Repr, DecidableEq
+
+/-- the property's oracle on one (route table, path, router outcome): `none` = holds.
+Required: strict table match ⇒ the router matches; the router matches ⇒ a table entry of the
+winning definition accepts the path (one trailing `/` tolerated) with the same params, and no
+earlier definition has a strict table match; no panic. -/
+def judge (d : Defs) (path : Path) (got : Out NMatch) : Option Kind :=
   let per := expandedPerDef d
   let sf := firstStrict per path 0
   match got with
-  | .panic => some "panic"
-  | .none => if sf.isSome then some "flat-only" else none
+  | .panic => some .panic
+  | .none => if sf.isSome then some .flatOnly else none
   | .some m =>
     match m.chain with
-    | [] => some "winner-unknown"
+    | [] => some .winnerUnknown
     | (i, _) :: _ =>
       match per[i]? with
-      | none => some "winner-unknown"
+      | none => some .winnerUnknown
       | some fs =>
         let all := lenientParams fs path
-        if all.isEmpty then some "router-only"
-        else if (match sf with | some j => decide (j < i) | none => false) then some "winner"
-        else if !all.contains m.params then some "params"
+        if all.isEmpty then some .routerOnly
+        else if (match sf with | some j => decide (j < i) | none => false) then some .winner
+        else if !all.contains m.params then some .params
         else none
+
+/-! ## input classes (decidable; the known-finding classes are named after them) -/
+
+/-- `SegmentAligned`: on this input the router as it is behaves like its segment-aligned variant -/
+def SegmentAligned (d : Defs) (path : Path) : Prop := matchRoute false d path = matchRoute true d path
+
+instance (d : Defs) (path : Path) : Decidable (SegmentAligned d path) := by
+  unfold SegmentAligned; exact inferInstance
+
+mutual
+/-- a route with children whose own segments contain an optional param -/
+def Route.hasOptParent : Route → Bool
+  | .mk segs children => (!children.isEmpty && segs.optional) || anyOptParent children
+def anyOptParent : List Route → Bool
+  | [] => false
+  | c :: cs => c.hasOptParent || anyOptParent cs
+end
+
+/-- an optional atom, possibly wrapped in 1-tuples -/
+def Seg.optAtomish : Seg → Bool
+  | .opt _ => true
+  | .tup [a] => a.optAtomish
+  | _ => false
+
+mutual
+/-- some field of a tuple of ≥ 2 fields is optional without being an optional atom: the tuple
+back-off then skips or keeps that whole inner tuple, which `generate_path` flattens away -/
+def Seg.innerOptTuple : Seg → Bool
+  | .tup [a] => a.innerOptTuple
+  | .tup (a :: b :: l) => innerOptFields (a :: b :: l)
+  | _ => false
+def innerOptFields : List Seg → Bool
+  | [] => false
+  | f :: r => (f.optional && !f.optAtomish) || f.innerOptTuple || innerOptFields r
+end
+
+mutual
+def Route.hasInnerOptTuple : Route → Bool
+  | .mk segs children => segs.innerOptTuple || anyInnerOptTuple children
+def anyInnerOptTuple : List Route → Bool
+  | [] => false
+  | c :: cs => c.hasInnerOptTuple || anyInnerOptTuple cs
+end
+
+mutual
+/-- a route whose own segments contain two or more optional params: the tuple back-off keeps a
+*prefix* of the optionals, so "skip the first, keep the second" is never tried -/
+def Route.hasMultiOpt : Route → Bool
+  | .mk segs children => decide (countOptF segs.gen ≥ 2) || anyMultiOpt children
+def anyMultiOpt : List Route → Bool
+  | [] => false
+  | c :: cs => c.hasMultiOpt || anyMultiOpt cs
+end
+
+/-- a static `"/"` segment followed by another segment in some registered route -/
+def slashThenMore : List FSeg → Bool
+  | [] => false
+  | s :: rest => (s == .st ['/'] && !rest.isEmpty) || slashThenMore rest
+
+def hasSlashSeg (d : Defs) : Bool := (flatRoutes d).any slashThenMore
+
+def baseSlashes (d : Defs) (path : Path) : Bool :=
+  match d.base, path with
+  | some b, c1 :: c2 :: _ => startsSlash b && c1 = '/' && c2 = '/'
+  | _, _ => false
+
+/-- known-finding classes (the word after `fail` in the model driver's verdict) -/
+inductive Class where
+  | unalignedPanic | staticPrefix | slashParent | baseSlashes
+  | optionalParent | optionalBackoffOrder | optionalFallbackParams | optionalFallbackUnwrap
+  | optionalFallbackOvermatch | nestedOptionalTuple
+  | unclassified (k : Kind)
+  deriving Repr, DecidableEq
+
+/-- the class a failing verdict `kind` (= `judge d path (matchRoute false d path)`) is filed under;
+first that applies.  Every class is a decidable predicate of the input `(d, path)`. -/
+def classify (d : Defs) (path : Path) (kind : Kind) : Class :=
+  let aligned := decide (SegmentAligned d path)
+  let unaligned : Class :=
+    if baseSlashes d path then .baseSlashes else if hasSlashSeg d then .slashParent else .staticPrefix
+  match kind with
+  | .panic =>
+    (match matchRoute true d path with
+     | .panic => if anyOptParent d.tops then .optionalFallbackUnwrap else .unclassified kind
+     | _ => .unalignedPanic)
+  | .routerOnly =>
+    if !aligned then unaligned
+    else if anyOptParent d.tops then .optionalFallbackOvermatch
+    else if anyInnerOptTuple d.tops then .nestedOptionalTuple
+    else .unclassified kind
+  | .flatOnly | .winner =>
+    if anyOptParent d.tops then .optionalParent
+    else if anyMultiOpt d.tops then .optionalBackoffOrder
+    else if anyInnerOptTuple d.tops then .nestedOptionalTuple
+    else .unclassified kind
+  | .params =>
+    if anyOptParent d.tops then .optionalFallbackParams
+    else if anyInnerOptTuple d.tops then .nestedOptionalTuple
+    else if !aligned then unaligned
+    else .unclassified kind
+  | .winnerUnknown => .unclassified kind
 
 end Leptos.Router
